@@ -10,6 +10,10 @@ import Rpki.Props.C14
 import Rpki.Props.C02
 import Rpki.Props.C03
 import Rpki.Proofs.DerLemmas
+import Rpki.Proofs.CrlDerLemmas
+import Rpki.Proofs.CmsDerLemmas
+import Rpki.Proofs.SkipLemmas
+import Rpki.Props.C05
 namespace Rpki.Props.C04
 set_option autoImplicit false
 open Rpki.Der
@@ -48,36 +52,8 @@ check: if the counting pass accepted, the iteration cannot fail, yields exactly 
 every item passed the check. -/
 theorem capture_iterate_parity {α : Type} (take : Bytes → Take α) (check : α → Bool) :
     ∀ (fuel : Nat) (b : Bytes) (n k : Nat), capturePass take check fuel b n = some k →
-      ∃ items, iteratePass take fuel b = some items ∧ items.length + n = k ∧ ∀ a ∈ items, check a = true := by
-  intro fuel
-  induction fuel with
-  | zero =>
-    intro b n k h
-    simp only [capturePass] at h
-    split at h
-    · injection h with h; exact ⟨[], rfl, by simpa using h, by simp⟩
-    · cases h
-  | succ f ih =>
-    intro b n k h
-    rw [capturePass] at h
-    cases ht : take b with
-    | absent =>
-      simp only [ht] at h
-      split at h
-      · injection h with h; exact ⟨[], by rw [iteratePass, ht], by simpa using h, by simp⟩
-      · cases h
-    | bad => simp [ht] at h
-    | ok a rest =>
-      simp only [ht] at h
-      by_cases hc : check a = true
-      · simp only [hc, if_true] at h
-        obtain ⟨items, h1, h2, h3⟩ := ih rest (n + 1) k h
-        refine ⟨a :: items, by rw [iteratePass, ht]; simp only [h1]; rfl, by simp; omega, ?_⟩
-        intro x hx
-        rcases List.mem_cons.1 hx with e | e
-        · rw [e]; exact hc
-        · exact h3 x e
-      · simp [hc] at h
+      ∃ items, iteratePass take fuel b = some items ∧ items.length + n = k ∧ ∀ a ∈ items, check a = true :=
+  Der.capture_iterate_parity take check
 
 
 /-- **Bounded consumption.** A value read by the TLV layer lies inside the input: header, content
@@ -148,5 +124,55 @@ theorem readTlv_partition (b : Bytes) (t : Nat) (c rest : Bytes) (h : readTlv b 
           obtain ⟨lb, e, h1, h2⟩ := key
           refine ⟨t0 :: lb, ?_, by simp; omega, by simp; omega⟩
           rw [e]; simp [List.take_append_drop]
+
+/-! ### the `unwrap()` sites behind the decoders, for every octet string
+
+The decoder models of `Model/CrlDer.lean`, `Model/SigMsgDer.lean` and `Model/CmsDer.lean` are tied to
+`Crl::decode`, `SignedMessage::decode` and `SignedObject::decode` (strict) by the `crld` / `smsgd` /
+`cmsd` operations.  Whatever octets they accept, the later walks over the captured parts cannot fail. -/
+
+/-- **`Crl::contains` / `RevokedCertificates::iter` after `Crl::decode`.** -/
+theorem crl_octets_lookup_cannot_panic (b : Bytes) (d : CrlDer.CrlD) (h : CrlDer.decodeCrl b = some d)
+    (serial : Bytes) :
+    ∃ es, Crl.entries d.revoked = some es ∧
+      Crl.contains d.revoked serial = some (decide (∃ e ∈ es, e.serial = serial)) := by
+  obtain ⟨n, hn⟩ := CrlDer.decodeCrl_revoked b d h
+  obtain ⟨es, h1, _, h2⟩ := C05.crl_lookup_agrees_with_iteration d.revoked n hn serial
+  exact ⟨es, h1, h2⟩
+
+/-- **`SignedMessageCrl::verify_not_revoked` after `SignedMessage::decode`** (the module's own entry reader,
+which tolerates entry extensions). -/
+theorem sigmsg_octets_revocation_check_cannot_panic (b : Bytes) (m : SigMsgDer.SigMsgD)
+    (h : SigMsgDer.decodeSigMsg b = some m) :
+    ∃ l, SigMsgDer.msgRevokedSerials m.crl.revoked = some l := by
+  obtain ⟨n, hn⟩ := SigMsgDer.decodeSigMsg_revoked b m h
+  obtain ⟨items, hi, _, _⟩ :=
+    capture_iterate_parity SigMsgDer.takeOptMsgEntry (fun _ => true) m.crl.revoked.length m.crl.revoked 0 n hn
+  exact ⟨items.map (·.serial), by unfold SigMsgDer.msgRevokedSerials; rw [hi]; rfl⟩
+
+/-- **`SignedAttrs::encode_verify` after `SignedObject::decode` / `SignedMessage::decode`.** -/
+theorem encode_verify_octets_cannot_panic (b : Bytes) (hb : AllBytes b) :
+    (∀ o, CmsDer.decodeSigObj b = some o → ∃ msg, SigObj.encodeVerify o.attrs = some msg) ∧
+    (∀ m, SigMsgDer.decodeSigMsg b = some m → ∃ msg, SigObj.encodeVerify m.attrs = some msg) := by
+  refine ⟨?_, ?_⟩
+  · intro o h
+    obtain ⟨hp, _⟩ := CmsDer.decodeSigObj_spec b o hb h
+    exact encode_verify_cannot_panic true o.attrs _ _ _ hp
+  · intro m h
+    obtain ⟨c, d, st, hp⟩ := SigMsgDer.decodeSigMsg_attrs b m h
+    exact encode_verify_cannot_panic false m.attrs _ _ _ hp
+
+/-! ### bcder's recursive skipping (`capture_one`, `skip_one`, `skip_all`) -/
+
+/-- **Bounded consumption.** Whatever the skip machine accepts, it leaves a proper suffix of the content
+it was called on: at least one header (two octets) is consumed and nothing outside the enclosing value is
+touched — also with nested indefinite-length values, which it admits in DER mode. -/
+theorem skip_machine_bounded (b rest : Bytes) (h : CertDer.skipOne b = some rest) :
+    rest <:+ b ∧ rest.length + 2 ≤ b.length := CertDer.skipOne_suffix b rest h
+
+/-- **The model's loop counter never decides.** More fuel changes nothing: a refusal by the model of the
+skip machine is a refusal of the input (so a disagreement with the library cannot hide behind the counter). -/
+theorem skip_machine_fuel_never_binds (b : Bytes) (k : Nat) :
+    CertDer.skipLoop (b.length + 1 + k) b [] = CertDer.skipOne b := CertDer.skipOne_fuel b k
 
 end Rpki.Props.C04
